@@ -141,15 +141,19 @@ type SliceSpec struct {
 	Sp    string   `json:"sp,omitempty"`
 }
 
-// MapSpec is a cff.Map (keys are strings).
+// MapSpec is a cff.Map. KeyK selects the key type: "" string, "int", or
+// "struct" (a comparable struct declared in the support file); Named makes
+// the collection a value of a declared map type.
 type MapSpec struct {
-	Unit int      `json:"unit"`
-	Coll int      `json:"coll"`
-	Elem TypeRef  `json:"elem"`
-	Ctx  bool     `json:"ctx,omitempty"`
-	Err  bool     `json:"err,omitempty"`
-	End  *EndSpec `json:"end,omitempty"`
-	Sp   string   `json:"sp,omitempty"`
+	Unit  int      `json:"unit"`
+	Coll  int      `json:"coll"`
+	Elem  TypeRef  `json:"elem"`
+	KeyK  string   `json:"keyk,omitempty"`
+	Named bool     `json:"named,omitempty"`
+	Ctx   bool     `json:"ctx,omitempty"`
+	Err   bool     `json:"err,omitempty"`
+	End   *EndSpec `json:"end,omitempty"`
+	Sp    string   `json:"sp,omitempty"`
 }
 
 // Spec describes one directive (a flow or a parallel).
